@@ -129,8 +129,10 @@ int main(int argc, char** argv) {
              " P=" + std::to_string(P) + " K=" + std::to_string(K);
     if (P2)
       c.name += " reinit=" + std::to_string(P2) + "x" + std::to_string(K2);
-    c.quick_bound    = qb;
-    c.thorough_bound = tb;
+    // quick tier: two deviations wherever at most three threads take part
+    // (measured: the whole tier stays under two minutes), one otherwise
+    c.quick_bound    = (qb == 1 && P <= 3 && P2 <= 3) ? 2 : qb;
+    c.thorough_bound = (tb == 2 && P <= 3 && P2 <= 3) ? 3 : tb;
     c.body = [=]() { barrier_case(kind, topo, P, K, P2, K2); };
     cases.push_back(c);
   };
